@@ -10,8 +10,8 @@ pub fn prop() -> HistProp {
         focus: &["C10"],
         opts: HistOpts { max_ops: 30, fingerprint: Some(true), deliver_weight: 9, hostile: 3, app_attrs: true, ..HistOpts::default() },
         drain: false,
-        quick: 15_000,
-        thorough: 300_000,
+        quick: 100_000,
+        thorough: 1_000_000,
         rule: "",
         assumptions: &[],
         nontrivial: |_, s| s.bad_fp_to_outstanding > 0,
